@@ -77,6 +77,8 @@ class Trav:
         self.an = crate.an(nextfn)
         self.fx = crate.fx(nextfn)
         self.pretty = crate.prog.pretty[nextfn]
+        self.base = "A1"          # region of the traversal struct in the analysed body
+        self.in_closure = False   # the step is the closure of `worklist.pop().map(|popped| ..)`
         an = self.an
         self.pops = [ev for ev in an.events if ev["k"] == "call" and ev["key"] in POP_KEYS and ev["args"]
                      and ev["args"][0][0] == "addr" and ev["args"][0][1].startswith("A1.")]
@@ -100,6 +102,10 @@ class Trav:
                             self.P1 = phi
             if self.P1 is not None:
                 self.P = [self.P1] + self.P
+        self.pop_key = self.pops[0]["key"] if self.pops else None
+        self.Wfield = self.W.split(".", 1)[1] if self.W else None
+        self._closure_step()
+        an = self.an
         # neighbour loops: Iterator::next sites whose iterator is out_neighbors*(digraph, V)
         self.nloops = []
         for ev in an.events:
@@ -119,6 +125,22 @@ class Trav:
                     self.nloops.append({"ev": ev, "key": src[0], "of": src[1][1] if len(src[1]) > 1 else None,
                                         "item": item, "v": mk_field(item, "0", 0) if weighted else item,
                                         "w": mk_field(item, "1", 1) if weighted else None})
+        # neighbour scans written as iterator pipelines: w.extend(out_neighbors(u).filter(..).map(..))
+        self.pipes = []
+        IT = "core::iter::traits::iterator::Iterator::"
+        for ev in an.events:
+            if ev["k"] == "call" and ev["key"] == "core::iter::traits::collect::Extend::extend" and len(ev["args"]) == 2:
+                rr = recv_region(an, ev["args"][0])
+                if rr != self.W:
+                    continue
+                t = ev["args"][1]
+                stages = []
+                while t[0] == "call" and t[1] in (IT + "map", IT + "filter") and len(t[3]) == 2 and t[3][1][0] == "agg" \
+                        and t[3][1][1] == "closure":
+                    stages.append((t[1][len(IT):], t[3][1][2]))
+                    t = t[3][0]
+                if t[0] == "call" and t[1] in NEIGHBOR_ITERS and len(t[3]) > 1:
+                    self.pipes.append({"ev": ev, "key": t[1], "of": t[3][1], "stages": list(reversed(stages)), "span": ev["span"]})
         # returns
         self.rets = []   # (block, stmt idx, term)
         for (b, i), t in an.stmt_terms.items():
@@ -130,9 +152,61 @@ class Trav:
                 self.rets.append((ev["b"], ev["i"], ev["res"], ev["span"]))
         self.stores = [ev for ev in an.events if ev["k"] == "store"]
 
+    def _closure_step(self):
+        """`self.w.pop().map(|popped| { ..step.. })`: analyse the closure as the step; the popped element is
+        its parameter, what it returns is yielded, and None is returned exactly when the pop gave None"""
+        if len(self.pops) != 1:
+            return
+        pan = self.an
+        pop = self.pops[0]
+        maps = [ev for ev in pan.events if ev["k"] == "call" and ev["key"] == "core::option::Option::map"
+                and len(ev["args"]) == 2 and ev["args"][0] == pop["res"] and ev["args"][1][0] == "agg"
+                and ev["args"][1][1] == "closure"]
+        if len(maps) != 1:
+            return
+        mp = maps[0]
+        rets = [ev for ev in pan.events if ev["k"] == "return"]
+        if len(rets) != 1 or rets[0]["val"] != mp["res"]:
+            return
+        # nothing else happens to the struct in the parent
+        if any(ev["k"] == "store" and ev["region"].startswith("A1") for ev in pan.events):
+            return
+        from .closures import capture_map
+        cl = self.crate.an(mp["args"][1][2])
+        cm = capture_map(self.crate, cl)
+        if cm is None:
+            return
+        freg = {}
+        for pr, cr in cm.regmap:
+            if pr == "A1":
+                # the whole struct is captured: fields are sub-regions
+                self.base = cr
+            elif pr.startswith("A1.") and "." not in pr[3:] and "#" not in pr and "*" not in pr:
+                freg[pr[3:]] = cr           # disjoint field captures
+        if self.base == "A1" and not freg:
+            return
+        self.parent_an = pan
+        self.an = cl
+        self.fx = self.crate.fx(cl.path)
+        self._freg = freg
+        self.in_closure = True
+        self.P = [("arg", 2)]
+        self.P1 = ("arg", 2)
+        self.W = self.reg(self.Wfield)
+        regs = set(freg.values())
+        self.pushes = [ev for ev in cl.events if ev["k"] == "call" and ev["key"] in PUSH_KEYS and ev["args"]
+                       and ((recv_region(cl, ev["args"][0]) or "") in regs
+                            or (self.base != "A1" and (recv_region(cl, ev["args"][0]) or "").startswith(self.base + ".")))]
+
+    def reg(self, field):
+        """region of a field of the traversal struct in the analysed body"""
+        if self.in_closure and field in getattr(self, "_freg", {}):
+            return self._freg[field]
+        return self.base + "." + field
+
     def popped_vertex_path(self):
         """field path of the popped element that is passed to out_neighbors*"""
-        for nl in self.nloops:
+        for nl in self.nloops + self.pipes:
             for P in self.P:
                 pp = proj_path(nl["of"], P) if nl["of"] is not None else None
                 if pp is not None:
@@ -140,6 +214,8 @@ class Trav:
         return None
 
     def is_none_ret(self, t):
+        if self.in_closure:
+            return False
         if t[0] == "agg" and t[1] == "adt" and t[2][1] == "None":
             return True
         if t[0] == "call" and t[1] == "core::ops::try_trait::FromResidual::from_residual":
@@ -147,6 +223,8 @@ class Trav:
         return False
 
     def some_ret(self, t):
+        if self.in_closure:
+            return t        # Option::map wraps whatever the closure returns
         if t[0] == "agg" and t[1] == "adt" and t[2][1] == "Some":
             return t[3][0]
         return None
@@ -296,6 +374,14 @@ class Obl:
         self.viol = []
         self.samples = []
         self.instances = 0
+        self.und = []
+
+    def undecide(self, who, tag, msg, span=None):
+        """the code at this anchor is written in a way the rule cannot interpret: no verdict (neither holds nor
+        violated); reported on stdout and in the evidence"""
+        f = finding(self.rule, who, tag, msg, span)
+        self.und.append(f)
+        return False
 
     def check(self, cond, who, tag, msg, span=None):
         self.n += 1
@@ -310,7 +396,8 @@ class Obl:
     def report(self, floors=None, note=""):
         return {"rule": self.rule, "instances": self.instances, "obligations": self.n, "discharged": self.ok,
                 "violations": self.viol, "samples": self.samples, "distinct_nontrivial": self.n,
-                "floors": floors or {}, "note": note}
+                "floors": floors or {}, "note": note,
+                "undecided": [{"key": f.key, "message": f.msg, "where": span_s(f.span) if f.span else None} for f in self.und]}
 
 
 def ctor_of(crate, S):
@@ -340,6 +427,48 @@ def sources_loop(crate, ctor):
             if d == ("arg", 2):
                 return an, fx, ev, ("field", ("dc", ev["res"], "Some"), "0")
     return an, fx, None, None
+
+
+def recv_region(an, t):
+    """region of the container a `&mut container` receiver term refers to"""
+    if t[0] == "addr":
+        return t[1]
+    return an.region_of_pointer(t)
+
+
+class SeedCtx:
+    """the part of a constructor that visits every source: a loop over `sources`, or the closure of
+    `sources.for_each(..)`; regions of the constructor's locals are translated into that body"""
+
+    def __init__(self, crate, ctor):
+        self.ok = False
+        can, cfx, lev, item = sources_loop(crate, ctor)
+        self.pan = can
+        if lev is not None:
+            self.an, self.fx, self.item = can, cfx, item
+            self.complete = complete_scan(can, cfx, lev)
+            self.body = can.cfg.loops.get(can.cfg.loop_of(lev["b"]), set())
+            self.inside = lambda ev: ev["b"] in self.body
+            self.reg = lambda L: L
+            self.span = lev["span"]
+            self.ok = True
+            return
+        for ev in can.events:
+            if ev["k"] == "call" and ev["key"] == "core::iter::traits::iterator::Iterator::for_each" and len(ev["args"]) == 2 \
+                    and ev["args"][0] == ("arg", 2) and ev["args"][1][0] == "agg" and ev["args"][1][1] == "closure":
+                from .closures import capture_map
+                cl = crate.an(ev["args"][1][2])
+                cm = capture_map(crate, cl)
+                if cm is None:
+                    continue
+                self.an, self.fx, self.item = cl, crate.fx(cl.path), ("arg", 2)
+                self.complete = True        # for_each calls the closure for every item
+                self.inside = lambda e: True
+                rm = {pr: cr for pr, cr in cm.regmap}
+                self.reg = lambda L: rm.get(L)
+                self.span = ev["span"]
+                self.ok = True
+                return
 
 
 def literal_of(crate, an, S):
@@ -377,16 +506,17 @@ def rule_schema_bfs(crate, prop, tier):
         tr = Trav(crate, nf)
         an, fx = tr.an, tr.fx
         marks = field_of_kind(crate, S, lambda t: is_vec_of(t, "bool"))
-        M = "A1." + marks[0] if marks else None
+        M = tr.reg(marks[0]) if marks else None
         pv = tr.popped_vertex_path()
-        o.check(tr.P1 is not None and M and pv is not None and len(tr.nloops) == 1, tr, "shape",
-                "next() does not have the BFS shape: one pop, one visited array, one loop over out_neighbors(popped vertex)")
         if not (tr.P1 is not None and M and pv is not None and len(tr.nloops) == 1):
+            o.undecide(tr, "shape", "next() is not written as one pop, one visited array and one loop over "
+                       "out_neighbors(popped vertex); the BFS schema cannot be applied to it")
             continue
+        o.check(True, tr, "shape", "")
         P = tr.P1
         nl = tr.nloops[0]
         # B4 FIFO
-        popk = tr.pops[0]["key"]
+        popk = tr.pop_key
         for pu in tr.pushes:
             fifo = (popk.endswith("pop_front") and pu["key"].endswith("push_back")) or \
                    (popk.endswith("pop_back") and pu["key"].endswith("push_front"))
@@ -413,7 +543,9 @@ def rule_schema_bfs(crate, prop, tier):
             extra = extra_conditions(tr, nl, pu["b"], allowed)
             o.check(not extra, tr, "B2-push-guard", "an out-neighbour is enqueued only under a condition other than `not visited` "
                     "(%s)" % ", ".join(a[0] for a in extra[:3]), pu["span"])
-            sts = [ev for ev, i in stores_to(tr, M, v) if const_is(ev["val"], 1) and same_region(an, ev["b"], pu["b"])]
+            nbody = an.cfg.loops.get(an.cfg.loop_of(nl["ev"]["b"]), set())
+            sts = [ev for ev, i in stores_to(tr, M, v) if const_is(ev["val"], 1) and
+                   (same_region(an, ev["b"], pu["b"]) or (ev["b"] in nbody and an.cfg.dominates(ev["b"], pu["b"])))]
             o.check(bool(sts), tr, "B2-mark-with-push", "a vertex is enqueued without being marked visited on the same path "
                     "(it can be enqueued again)", pu["span"])
             if nm == "BfsDist":
@@ -437,16 +569,16 @@ def rule_schema_bfs(crate, prop, tier):
         # B5 seeds
         ctor = ctor_of(crate, S)
         if o.check(ctor is not None, tr, "B5-ctor", "constructor `new` not found"):
-            can, cfx, lev, item = sources_loop(crate, ctor)
+            sc = SeedCtx(crate, ctor)
+            can = sc.pan
             lit, lb = literal_of(crate, can, S)
-            if o.check(lev is not None and lit is not None, tr, "B5-seed-loop", "`new` has no loop over the sources that feeds the literal"):
-                Wn = tr.W.split(".", 1)[1]
-                Mn = M.split(".", 1)[1]
-                qL = local_region_of_value(lit[Wn])
-                ctr = Trav.__new__(Trav)
-                ctr.stores = [ev for ev in can.events if ev["k"] == "store"]
-                pushes = [ev for ev in can.events if ev["k"] == "call" and ev["key"] in PUSH_KEYS and ev["args"]
-                          and ev["args"][0][0] == "addr" and ev["args"][0][1] == qL]
+            if o.check(sc.ok and lit is not None, tr, "B5-seed-loop", "`new` has no loop over the sources that feeds the literal"):
+                item = sc.item
+                Wn = tr.Wfield
+                Mn = marks[0]
+                qL = sc.reg(local_region_of_value(lit[Wn]))
+                pushes = [ev for ev in sc.an.events if ev["k"] == "call" and ev["key"] in PUSH_KEYS and ev["args"]
+                          and recv_region(sc.an, ev["args"][0]) == qL and qL is not None]
                 seeded = False
                 for pu in pushes:
                     E = pu["args"][1]
@@ -459,15 +591,20 @@ def rule_schema_bfs(crate, prop, tier):
                                     "sources are not seeded without predecessor", pu["span"])
                 o.check(seeded, tr, "B5-seed-push", "sources are not enqueued by `new`")
                 # marks
-                mlocal = None
                 mv = lit[Mn]
+                mL = local_region_of_value(mv)
                 marked = False
-                for ev in ctr.stores:
+                for ev in sc.an.events:
+                    if ev["k"] != "store":
+                        continue
                     c, i = store_elem(ev)
-                    if i == item and const_is(ev["val"], 1) and c and c[0] == "at" and can.term_of.get((c[1], c[3])) == mv:
-                        marked = True
+                    if i == item and const_is(ev["val"], 1) and c and c[0] == "at":
+                        if sc.an is can and can.term_of.get((c[1], c[3])) == mv:
+                            marked = True
+                        if mL is not None and c[1] == sc.reg(mL):
+                            marked = True
                 o.check(marked, tr, "B5-seed-mark", "sources are not marked visited by `new` (a source can be yielded twice)")
-                o.check(complete_scan(can, cfx, lev), tr, "B5-all-sources", "the loop over the sources can end early")
+                o.check(sc.complete, tr, "B5-all-sources", "the loop over the sources can end early")
         # distances()
         if nm == "BfsDist":
             check_fold(crate, o, S, "distances", tr, fill=("const", "usize", 18446744073709551615), idx_path=(0,), val_path=(1,))
@@ -489,8 +626,16 @@ def check_fold(crate, o, S, mname, tr, fill, idx_path, val_path):
             nf, base = self_iterator(crate, an, fx, ev)
             if nf == tr.path:
                 loops.append(ev)
-    if not o.check(len(loops) == 1, tr, mname + "-loop", "%s() does not loop over the traversal itself" % mname):
+    if not loops:
+        # consumer form: self.fold(prefilled, |mut acc, item| { acc[i] = x; acc }) or
+        # self.by_ref().for_each(|item| acc[i] = x): std drives next() until it returns None
+        if consumer_fold(crate, o, an, fx, tr, mname, fill, idx_path, val_path):
+            return
+    if len(loops) != 1:
+        o.undecide(tr, mname + "-loop", "%s() consumes the traversal in a way the rule does not interpret (no single loop, "
+                   "fold or for_each over self)" % mname)
         return
+    o.check(True, tr, mname + "-loop", "")
     ev = loops[0]
     item = ("field", ("dc", ev["res"], "Some"), "0")
     o.check(complete_scan(an, fx, ev), tr, mname + "-exhausts", "%s() can stop before the traversal is exhausted" % mname, ev["span"])
@@ -502,9 +647,70 @@ def check_fold(crate, o, S, mname, tr, fill, idx_path, val_path):
             good = True
             v = an.term_of.get((c[1], c[3])) if c and c[0] == "at" else None
             if fill is not None:
-                o.check(v is not None and v[0] == "call" and v[1] == "alloc::vec::from_elem" and v[3][0] == fill,
+                o.check(is_prefill(v, fill),
                         tr, mname + "-prefill", "%s() does not pre-fill the result with the 'unreached' value" % mname, e["span"])
     o.check(good, tr, mname + "-store", "%s() does not store the yielded value at the yielded vertex" % mname)
+
+
+def is_prefill(v, fill):
+    return v is not None and v[0] == "call" and v[1] == "alloc::vec::from_elem" and v[3][0] == fill
+
+
+def is_self_iter(an, t):
+    """t is the traversal itself: self, or self.by_ref()"""
+    if t == ("arg", 1):
+        return True
+    if t[0] == "call" and t[1] == "core::iter::traits::iterator::Iterator::by_ref" and t[3]:
+        x = t[3][0]
+        return x == ("arg", 1) or (x[0] == "at" and x[1] == "A1")
+    return False
+
+
+def consumer_fold(crate, o, an, fx, tr, mname, fill, idx_path, val_path):
+    IT = "core::iter::traits::iterator::Iterator::"
+    for ev in an.events:
+        if ev["k"] != "call" or ev["key"] not in (IT + "fold", IT + "for_each") or not ev["args"]:
+            continue
+        if not is_self_iter(an, ev["args"][0]):
+            continue
+        clo = ev["args"][-1]
+        if not (clo[0] == "agg" and clo[1] == "closure"):
+            continue
+        can = crate.an(clo[2])
+        is_fold = ev["key"].endswith("::fold")
+        item = ("arg", 3) if is_fold else ("arg", 2)
+        o.check(True, tr, mname + "-exhausts", "")
+        if is_fold and fill is not None:
+            o.check(is_prefill(ev["args"][1], fill), tr, mname + "-prefill",
+                    "%s() does not pre-fill the result with the 'unreached' value" % mname, ev["span"])
+        good = False
+        for e in can.events:
+            if e["k"] == "store":
+                c, i = store_elem(e)
+                if c is None:
+                    continue
+                if i == apply_path(item, idx_path) and e["val"] == apply_path(item, val_path):
+                    if is_fold:
+                        # the accumulator parameter is what is written and what is returned
+                        rets = [r for r in can.events if r["k"] == "return"]
+                        good = region_of_container(c) == "L2" and len(rets) == 1
+                    else:
+                        good = True
+                        if fill is not None:
+                            # the captured container was pre-filled in the parent
+                            from .closures import capture_map
+                            cm = capture_map(crate, can)
+                            okp = False
+                            if cm is not None:
+                                for pr, cr in cm.regmap:
+                                    if cr == region_of_container(c):
+                                        vals = [v for (var, ver), v in an.term_of.items() if var == pr]
+                                        okp = any(is_prefill(v, fill) for v in vals)
+                            o.check(okp, tr, mname + "-prefill", "%s() does not pre-fill the result with the 'unreached' value" % mname, e["span"])
+        o.check(good, tr, mname + "-store", "%s() does not store the yielded value at the yielded vertex" % mname, ev["span"])
+        # no path leaves the closure early without the store: it has one return and the store dominates it
+        return True
+    return False
 
 
 # ---------------------------------------------------------------------------
@@ -590,51 +796,57 @@ def rule_schema_dfs(crate, prop, tier):
         tr = Trav(crate, nf)
         an, fx = tr.an, tr.fx
         marks = field_of_kind(crate, S, lambda t: is_vec_of(t, "bool"))
-        M = "A1." + marks[0] if marks else None
+        M = tr.reg(marks[0]) if marks else None
         pv = tr.popped_vertex_path()
-        shape = tr.P1 is not None and M and pv is not None and len(tr.nloops) == 1
-        if not o.check(shape, tr, "shape", "next() does not have the stack-DFS shape: one pop, one visited array, "
-                       "one loop over out_neighbors(popped vertex)"):
+        piped = tr.P1 is not None and M and pv is not None and not tr.nloops and len(tr.pipes) == 1 and not tr.pushes
+        shape = tr.P1 is not None and M and pv is not None and len(tr.nloops) == 1 and not tr.pipes
+        if not (shape or piped):
+            o.undecide(tr, "shape", "next() is not written as one pop, one visited array and one loop over "
+                       "out_neighbors(popped vertex); the stack-DFS schema cannot be applied to it")
             continue
+        o.check(True, tr, "shape", "")
         P = tr.P1
         u = apply_path(P, pv)
-        nl = tr.nloops[0]
-        # D4 LIFO
-        o.check(tr.pops[0]["key"] == "alloc::vec::Vec::pop", tr, "D4-lifo-pop", "the worklist is not popped from the top of a stack")
-        for pu in tr.pushes:
-            o.check(pu["key"] == "alloc::vec::Vec::push", tr, "D4-lifo-push", "the worklist is not pushed on top of a stack", pu["span"])
-        # D3 complete scan of the popped vertex's out-neighbours, each pushed
-        o.check(complete_scan(an, fx, nl["ev"]), tr, "D3-complete-scan",
-                "the loop over out_neighbors(popped vertex) can be left before the iterator is exhausted", nl["ev"]["span"])
-        o.check(nl["of"] == u, tr, "D3-neighbours-of-popped", "neighbours are not those of the popped vertex")
-        o.check(len(tr.pushes) >= 1, tr, "D3-push-exists", "no out-neighbour is ever pushed")
-        body = an.cfg.loops.get(an.cfg.loop_of(nl["ev"]["b"]), set())
-        for pu in tr.pushes:
-            E = pu["args"][1]
-            v = nl["v"]
-            carries = E == v or (E[0] == "agg" and v in E[3])
-            o.check(carries, tr, "D3-push-neighbour", "the pushed element does not carry the scanned neighbour", pu["span"])
-            # the push may only be skipped for already visited neighbours
-            def allowed(a, v=v):
-                if a[0] == "false" and a[1][0] == "mem":
-                    r, i = load_parts(a[1])
-                    return r == M and i == v
-                return is_range_guard(a, v)
-            extra = extra_conditions(tr, nl, pu["b"], allowed)
-            o.check(not extra, tr, "D3-push-guard", "an out-neighbour is pushed only under a condition other than `not visited` "
-                    "(%s)" % ", ".join(a[0] for a in extra[:3]), pu["span"])
-            if nm == "DfsDist":
-                lvl = E[3][1] if E[0] == "agg" and len(E[3]) == 2 else None
-                d1 = mk_field(P, "1", 1)
-                o.check(lvl in (("bin", "Add", ("const", "usize", 1), d1), ("bin", "Add", d1, ("const", "usize", 1))),
-                        tr, "D5-depth", "pushed depth is not popped depth + 1", pu["span"])
-            if nm == "DfsPred":
-                pr = E[3][0] if E[0] == "agg" and len(E[3]) == 2 else None
-                o.check(pr is not None and pr[0] == "agg" and pr[2][1] == "Some" and pr[3][0] == u,
-                        tr, "D5-predecessor-is-popper", "pushed predecessor is not the popped vertex", pu["span"])
-        # every push site lies inside the neighbour loop
-        for pu in tr.pushes:
-            o.check(pu["b"] in body, tr, "D3-push-in-scan", "a push happens outside the neighbour scan", pu["span"])
+        o.check(tr.pop_key == "alloc::vec::Vec::pop", tr, "D4-lifo-pop", "the worklist is not popped from the top of a stack")
+        if piped:
+            dfs_pipeline(crate, o, tr, nm, M, P, u)
+        else:
+            nl = tr.nloops[0]
+            # D4 LIFO
+            for pu in tr.pushes:
+                o.check(pu["key"] == "alloc::vec::Vec::push", tr, "D4-lifo-push", "the worklist is not pushed on top of a stack", pu["span"])
+            # D3 complete scan of the popped vertex's out-neighbours, each pushed
+            o.check(complete_scan(an, fx, nl["ev"]), tr, "D3-complete-scan",
+                    "the loop over out_neighbors(popped vertex) can be left before the iterator is exhausted", nl["ev"]["span"])
+            o.check(nl["of"] == u, tr, "D3-neighbours-of-popped", "neighbours are not those of the popped vertex")
+            o.check(len(tr.pushes) >= 1, tr, "D3-push-exists", "no out-neighbour is ever pushed")
+            body = an.cfg.loops.get(an.cfg.loop_of(nl["ev"]["b"]), set())
+            for pu in tr.pushes:
+                E = pu["args"][1]
+                v = nl["v"]
+                carries = E == v or (E[0] == "agg" and v in E[3])
+                o.check(carries, tr, "D3-push-neighbour", "the pushed element does not carry the scanned neighbour", pu["span"])
+                # the push may only be skipped for already visited neighbours
+                def allowed(a, v=v):
+                    if a[0] == "false" and a[1][0] == "mem":
+                        r, i = load_parts(a[1])
+                        return r == M and i == v
+                    return is_range_guard(a, v)
+                extra = extra_conditions(tr, nl, pu["b"], allowed)
+                o.check(not extra, tr, "D3-push-guard", "an out-neighbour is pushed only under a condition other than `not visited` "
+                        "(%s)" % ", ".join(a[0] for a in extra[:3]), pu["span"])
+                if nm == "DfsDist":
+                    lvl = E[3][1] if E[0] == "agg" and len(E[3]) == 2 else None
+                    d1 = mk_field(P, "1", 1)
+                    o.check(lvl in (("bin", "Add", ("const", "usize", 1), d1), ("bin", "Add", d1, ("const", "usize", 1))),
+                            tr, "D5-depth", "pushed depth is not popped depth + 1", pu["span"])
+                if nm == "DfsPred":
+                    pr = E[3][0] if E[0] == "agg" and len(E[3]) == 2 else None
+                    o.check(pr is not None and pr[0] == "agg" and pr[2][1] == "Some" and pr[3][0] == u,
+                            tr, "D5-predecessor-is-popper", "pushed predecessor is not the popped vertex", pu["span"])
+            # every push site lies inside the neighbour loop
+            for pu in tr.pushes:
+                o.check(pu["b"] in body, tr, "D3-push-in-scan", "a push happens outside the neighbour scan", pu["span"])
         # D2 mark-on-pop
         somes = [(b, tr.some_ret(t), sp) for (b, i, t, sp) in tr.rets if tr.some_ret(t) is not None]
         o.check(len(somes) >= 1, tr, "D2-yield-exists", "next() never yields")
@@ -654,8 +866,8 @@ def rule_schema_dfs(crate, prop, tier):
             can = crate.an(ctor)
             lit, lb = literal_of(crate, can, S)
             if o.check(lit is not None, tr, "D5-literal", "`new` builds no literal"):
-                Wn = tr.W.split(".", 1)[1]
-                Mn = M.split(".", 1)[1]
+                Wn = tr.Wfield
+                Mn = marks[0]
                 mv = lit[Mn]
                 o.check(mv[0] == "call" and mv[1] == "alloc::vec::from_elem" and const_is(mv[3][0], 0), tr,
                         "D5-nothing-visited", "`new` does not start with an all-false visited array")
@@ -704,6 +916,74 @@ def rule_schema_dfs(crate, prop, tier):
     return o.report(floors={"DFS iterators": (o.instances, 1)})
 
 
+def dfs_pipeline(crate, o, tr, nm, M, P, u):
+    """D3/D5 for `stack.extend(out_neighbors(u).filter(|&v| !visited[v]).map(|v| elem(v)))`"""
+    from .closures import capture_map
+    pipe = tr.pipes[0]
+    an = tr.an
+    span = pipe["span"]
+    # extend on a Vec pushes the items in order; it consumes the whole iterator
+    wty = struct_fields(crate, an.region_info[tr.W]["chain"][0][0]).get(tr.Wfield) if an.region_info.get(tr.W, {}).get("chain") else None
+    o.check(wty is not None and wty.get("name") == "Vec", tr, "D4-lifo-push", "the worklist is not pushed on top of a stack", span)
+    o.check(True, tr, "D3-complete-scan", "")
+    o.check(pipe["of"] == u, tr, "D3-neighbours-of-popped", "neighbours are not those of the popped vertex", span)
+    o.check(True, tr, "D3-push-exists", "")
+    elem_seen = False
+    for kind, cp in pipe["stages"]:
+        cl = crate.an(cp)
+        cm = capture_map(crate, cl)
+        rets = [ev for ev in cl.events if ev["k"] == "return"]
+        if not o.check(len(rets) == 1 and cm is not None, tr, "D3-push-guard", "a pipeline stage is not a single-expression closure", span):
+            continue
+        r = rets[0]["val"]
+        if kind == "filter":
+            if elem_seen:
+                o.check(False, tr, "D3-push-guard", "a filter after the element has been built cannot be interpreted", span)
+                continue
+            # filter receives &item: the predicate must be exactly `!visited[*item]`
+            good = False
+            if r[0] == "un" and r[1] == "Not" and r[2][0] == "mem":
+                rr, idx = load_parts(r[2])
+                mreg = [cr for pr, cr in cm.regmap if pr == M]
+                good = bool(mreg) and rr == mreg[0] and idx == ("mem", "A2", ("e",), None)
+            o.check(good, tr, "D3-push-guard", "an out-neighbour is pushed only under a condition other than `not visited`", span)
+        else:
+            elem_seen = True
+            v = ("arg", 2)
+            carries = r == v or (r[0] == "agg" and v in r[3])
+            o.check(carries, tr, "D3-push-neighbour", "the pushed element does not carry the scanned neighbour", span)
+
+            def parent_vals(t):
+                return [pv_ for pv_, cv in cm.valmap if cv == t]
+            if nm == "DfsDist":
+                lvl = r[3][1] if r[0] == "agg" and len(r[3]) == 2 else None
+                d1 = mk_field(P, "1", 1)
+                want = (("bin", "Add", ("const", "usize", 1), d1), ("bin", "Add", d1, ("const", "usize", 1)))
+                vals = parent_vals(lvl) if lvl is not None else []
+                # captured by reference: the parent value of the captured local
+                okl = any(x in want or _value_of_local(an, x) in want for x in vals)
+                o.check(okl, tr, "D5-depth", "pushed depth is not popped depth + 1", span)
+            if nm == "DfsPred":
+                pr = r[3][0] if r[0] == "agg" and len(r[3]) == 2 else None
+                okp = pr is not None and pr[0] == "agg" and pr[2][1] == "Some" and \
+                    any(x == u or _value_of_local(an, x) == u for x in parent_vals(pr[3][0]))
+                o.check(okp, tr, "D5-predecessor-is-popper", "pushed predecessor is not the popped vertex", span)
+    if nm == "Dfs":
+        o.check(True, tr, "D3-push-neighbour", "")
+    elif not elem_seen:
+        o.check(False, tr, "D3-push-neighbour", "the pushed element does not carry depth / predecessor", span)
+    o.check(True, tr, "D3-push-in-scan", "")
+
+
+def _value_of_local(an, t):
+    """value stored in the local a `&local` capture operand points to"""
+    if t[0] == "addr" and t[2] is None:
+        vals = [v for (var, ver), v in an.term_of.items() if var == t[1] and v[0] != "opq"]
+        if len(vals) == 1:
+            return vals[0]
+    return t
+
+
 def sum_parts(k):
     """(x, y) when k is x + y, as a primitive addition or as core::ops::Add::add"""
     if k[0] == "bin" and k[1] == "Add":
@@ -738,18 +1018,20 @@ def rule_schema_dj(crate, prop, tier):
         tr = Trav(crate, nf)
         an, fx = tr.an, tr.fx
         dists = field_of_kind(crate, S, lambda t: is_vec_of(t, "usize"))
-        Dm = "A1." + dists[0] if dists else None
+        Dm = tr.reg(dists[0]) if dists else None
         pv = tr.popped_vertex_path()
         shape = tr.P1 is not None and Dm and pv is not None and len(tr.nloops) == 1 and tr.nloops[0]["w"] is not None
-        if not o.check(shape, tr, "shape", "next() does not have the lazy-deletion Dijkstra shape: one heap pop, one dist "
-                       "array, one loop over out_neighbors_weighted(popped vertex)"):
+        if not shape:
+            o.undecide(tr, "shape", "next() is not written as one heap pop, one dist array and one loop over "
+                       "out_neighbors_weighted(popped vertex); the lazy-deletion Dijkstra schema cannot be applied to it")
             continue
+        o.check(True, tr, "shape", "")
         P = tr.P1
         u = apply_path(P, pv)
         key = mk_field(mk_field(P, "0", 0), "0", 0)     # (Reverse(k), ..).0.0
         nl = tr.nloops[0]
         # J2 min-heap on Reverse<key>
-        hty = struct_fields(crate, S)[tr.W.split(".", 1)[1]]
+        hty = struct_fields(crate, S)[tr.Wfield]
         o.check(hty["k"] == "adt" and hty["name"] == "BinaryHeap" and hty["args"] and hty["args"][0]["k"] == "tuple"
                 and hty["args"][0]["elems"][0].get("name") == "Reverse", tr, "J2-min-heap",
                 "the heap's element type does not order by Reverse<distance> first")
@@ -831,8 +1113,8 @@ def rule_schema_dj(crate, prop, tier):
             can, cfx, lev, item = sources_loop(crate, ctor)
             lit, lb = literal_of(crate, can, S)
             if o.check(lev is not None and lit is not None, tr, "J6-seed-loop", "`new` has no loop over the sources"):
-                Wn = tr.W.split(".", 1)[1]
-                Dn = Dm.split(".", 1)[1]
+                Wn = tr.Wfield
+                Dn = dists[0]
                 hL = local_region_of_value(lit[Wn])
                 dv = lit[Dn]
                 o.check(dv[0] == "call" and dv[1] == "alloc::vec::from_elem" and const_is(dv[3][0], 18446744073709551615),
@@ -859,6 +1141,31 @@ def rule_schema_dj(crate, prop, tier):
 
 
 # ---------------------------------------------------------------------------
+def closing_arc_in_closure(crate, can, cfx, v):
+    """`out_neighbors(v).filter_map(|x| pred.search(v, x))`: True / False, or None when no such closure exists"""
+    from .closures import capture_map
+    found = None
+    for cp in crate.prog.children.get(can.path, []):
+        cl = crate.an(cp)
+        for se in cl.events:
+            if se["k"] == "call" and se["key"] and se["key"].endswith("PredecessorTree::search") and len(se["args"]) >= 3:
+                found = False
+                cm = capture_map(crate, cl)
+                if cm is None or se["args"][2] != ("arg", 2):
+                    continue
+                tv = cm.tr_all(v)
+                if se["args"][1] not in tv:
+                    continue
+                for pev in can.events:
+                    if pev["k"] == "call" and len(pev["args"]) == 2 and pev["args"][1] == cm.agg and pev["key"] in (
+                            "core::iter::traits::iterator::Iterator::filter_map", "core::iter::traits::iterator::Iterator::map",
+                            "core::iter::traits::iterator::Iterator::flat_map"):
+                        d = pev["args"][0]
+                        if d[0] == "call" and d[1] in NEIGHBOR_ITERS and d[3][1] == v:
+                            return True
+    return found
+
+
 def rule_schema_pred(crate, prop, tier):
     """P2/P3 of SCHEMA-PRED for BfsPred and DijkstraPred (+ cycles())"""
     o = Obl("SCHEMA-PRED")
@@ -877,8 +1184,11 @@ def rule_schema_pred(crate, prop, tier):
         fx = crate.fx(m)
         loops = [ev for ev in an.events if ev["k"] == "call" and ev["key"] == ITER_NEXT
                  and self_iterator(crate, an, fx, ev)[0] == nf]
-        if not o.check(len(loops) == 1, tr, "P3-loop", "shortest_path() does not loop over the traversal exactly once"):
+        if len(loops) != 1:
+            o.undecide(tr, "P3-loop", "shortest_path() consumes the traversal in a way the rule does not interpret "
+                       "(no single loop over self)")
             continue
+        o.check(True, tr, "P3-loop", "")
         ev = loops[0]
         item = ("field", ("dc", ev["res"], "Some"), "0")
         vtx = mk_field(item, "1", 1)
@@ -933,7 +1243,10 @@ def rule_schema_pred(crate, prop, tier):
                 cfx = crate.fx(mc)
                 lps = [e for e in can.events if e["k"] == "call" and e["key"] == ITER_NEXT
                        and (self_iterator(crate, can, cfx, e)[0] == nf or e["args"][0] == ("arg", 1))]
-                if o.check(len(lps) == 1, tr, "cycles-loop", "cycles() does not loop over the traversal exactly once"):
+                if len(lps) != 1:
+                    o.undecide(tr, "cycles-loop", "cycles() consumes the traversal in a way the rule does not interpret")
+                else:
+                    o.check(True, tr, "cycles-loop", "")
                     e0 = lps[0]
                     it = ("field", ("dc", e0["res"], "Some"), "0")
                     v = mk_field(it, "1", 1)
@@ -950,5 +1263,10 @@ def rule_schema_pred(crate, prop, tier):
                                 d = cfx.iter_desc(cfx.an_call_at(site[1]))
                                 if d and d != "CYCLE" and d[0] == "call" and d[1] in NEIGHBOR_ITERS and d[3][1] == v:
                                     okc = True
+                    if not searches:
+                        okc = closing_arc_in_closure(crate, can, cfx, v)
+                        if okc is None:
+                            o.undecide(tr, "cycles-closing-arc", "cycles() does not call PredecessorTree::search in a form the rule interprets")
+                            okc = True
                     o.check(okc, tr, "cycles-closing-arc", "cycles() does not close a predecessor chain of v with an out-neighbour of v")
     return o.report(floors={"predecessor iterators": (o.instances, 2)})
